@@ -252,6 +252,26 @@ pub fn gen_program(r: &mut Rng, cfg: &GenCfg) -> Vec<Op> {
     ops
 }
 
+/// Scenarios that re-execute one program hundreds of times (one run per I/O call index) cannot afford
+/// zstd's top levels: every compressor start at level 17+ clears a match state of hundreds of MiB. The
+/// level stays valid and compressing; only the cost changes (C01/C12 keep the whole range).
+pub fn tame_levels(ops: &mut [Op]) {
+    for op in ops.iter_mut() {
+        match op {
+            Op::StartFile { o, .. } | Op::StartAligned { o, .. } | Op::StartExtra { o, .. } | Op::AddDir { o, .. } | Op::AddSymlink { o, .. } => {
+                if o.method == 93 {
+                    if let Some(l) = o.level {
+                        if l > 9 && l <= 22 {
+                            o.level = Some(3 + l % 7);
+                        }
+                    }
+                }
+            }
+            _ => {}
+        }
+    }
+}
+
 /// comment lengths: mostly short; when long comments are allowed, the top of the 16-bit range (where the
 /// end record leaves the last 64 KiB of the file) is drawn on purpose, not by luck
 pub fn gen_comment_len(r: &mut Rng, max: u64) -> u64 {
